@@ -264,5 +264,5 @@ def main(rep, tier):
     return rep.finish(
         "Construction-site, provenance and who-may-call rules: every Token owns a permit of the single semaphore sized max_conns, "
         "shared by all clones of the runner; nothing can leak or duplicate a permit. Given a semaphore that never hands out more than "
-        "its permits, #tokens <= #permits <= max_conns.",
+        "its permits, #tokens <= #permits <= max_conns; a Token is never taken apart, so the permit lives as long as the value handed to the connection task.",
         not_decided="sentences 2-3 of the statement (immediate completion when a slot is free, wake-up of waiters on release, cancellation) are behaviour of the async-lock dependency and are not decided")
